@@ -450,6 +450,22 @@ def run_op(case, stt):
         with lib("operator " + opn):
             r = BINOPS[opn](l, rr)
         check_result(pb, r, exp, first, "%s %s %s" % ("sig" if sig_first else oth, opn, oth if sig_first else "sig"))
+        if not case["dask"] and oth != "quantity":
+            # the caller's floating-point error state applies to the operation on signals exactly as to the arrays: what raises there raises here
+            with np.errstate(all="raise"):
+                try:
+                    UF[opn](l_raw, r_raw)
+                    fpe = False
+                except FloatingPointError:
+                    fpe = True
+                if fpe:
+                    must_raise("%s under np.errstate(all='raise') where the arrays raise FloatingPointError" % opn, lambda: BINOPS[opn](l, rr),
+                               (FloatingPointError,))
+                    stt.label("errstate_raise_propagates")
+                else:
+                    with lib("operator %s under np.errstate(all='raise')" % opn):
+                        r2 = BINOPS[opn](l, rr)
+                    check(same_bits(values(r2.data), exp), "{} under np.errstate(all='raise') gives other values", opn)
         stt.nt((not sig_first) or oth in ("sig_other_class", "quantity"))
         stt.label("other_" + oth)
         stt.label("op_" + opn)
